@@ -264,7 +264,7 @@ fn big(shape: &str, size: usize) -> String {
 pub fn generate(rng: &mut Rng, thorough: bool) -> Vec<Value> {
     let mut out = vec![];
     let n = if thorough { 1500 } else { 150 };
-    let targets = vec!["n".to_string(), "o".to_string(), "missing".to_string()];
+    let targets = vec!["n".to_string(), "o".to_string(), "missing".to_string(), "заметки".to_string(), "日本語ノート".to_string(), "notes-éé".to_string()];
     for i in 0..n {
         let (kind, text) = match i % 3 {
             0 => ("structured", {
